@@ -19,6 +19,7 @@ def job_roundtrip(ses, proto, fkind, akind):
         # the core builder object (self) is left as it was: a second token from the same builder is built from the same payload / footer / assertion
         if is_ok(re_) and getattr(se, 'self_cell', None) is not None:
             after = se.store[se.self_cell]; names = w.fields('Paseto'); fa = dict(zip(names, after[3])); fb = dict(zip(names, se.self_before[3]))
+            if after[1] == 'Havocked': fa = {n_: after for n_ in names}      # the function that received `&mut self` was abstracted: every field is unknown afterwards
             for fld in names:
                 if fld in ('header',): continue
                 if not same_value(fa[fld], fb[fld]):
